@@ -53,6 +53,13 @@ theorem C03_translate_chi (segs : List Seg) (hwf : ∀ sg ∈ segs, wfSeg sg = t
     | static s => simp [segToks, tokStr, renderSeg, List.flatMap_append, flatMap_lits, iht]
     | var n => simp [segToks, tokStr, renderSeg, iht]
 
+/-- … the std-http translation is the same text, closed with `{$}` exactly when the template ends in a slash (a
+ServeMux pattern ending in a slash would otherwise stand for every path below it) … -/
+theorem C03_translate_stdhttp (segs : List Seg) (hwf : ∀ sg ∈ segs, wfSeg sg = true) :
+    toStdHttp (render segs) =
+      if (render segs).getLast? = some cSlash then render segs ++ [cOpen, 36, cClose] else render segs := by
+  simp only [toStdHttp, C03_translate_chi segs hwf]
+
 /-- … and the echo / gin / fiber / iris translation replaces each `{name}` by `:name`, nothing else. -/
 theorem C03_translate_colon (segs : List Seg) (hwf : ∀ sg ∈ segs, wfSeg sg = true) :
     toColon (render segs) = segs.flatMap fun sg => cSlash :: colonSeg sg := by
